@@ -10,6 +10,7 @@ claimed={
  "C05":("proof","sbox, mds, halfRound, fullRound, poseidon, Poseidon1, Poseidon2 proved equal to the HADES specification (spec/02_poseidon.smt2) over the repository's tables for all inputs, widths 2 and 3; table values themselves are abstract (tied to the reference by PIT in the thorough tier when built).","§7 C05",API+"; table values = reference parameters not decided by SMT"),
  "C03":("proof","Both circuit Define functions under contract: loop invariants pin every bit of the hashed message to the canonical packing of the property (pack.insBit / pack.delBit), the 32-bit index bound and the reducedness of every 256-bit field (via the C06 contracts); public input = beval(Keccak(msg)) mod r in A-mode (soundness) and H-mode (completeness). Keccak itself is the contract of KeccakGadget (C04).","§7 C03",API+"; KeccakGadget contract (trusted until C04 is discharged); spec axioms keccak_ext, digest_bool"),
  "C08":("proof","ComputeInputHashInsertion/Deletion under contract: the hashed byte string is proved equal, byte for byte and in length, to the fixed-width big-endian packing of the property for all in-range values and all batch sizes (loop invariant over the commitments); failures are replayed on the real code against an independent packing + x/crypto Keccak. The defect found (unpadded roots) was repaired by a fix: commit.","§7 C08","assumed contracts of math/big (Bytes, SetBytes), bytes.Buffer, encoding/binary.Write, iden3 keccak256.Hash = Keccak-256 (assumed/stdlib.ctr); spec axioms minLen_def, keccakb_ext; gen-test-params wiring in main.go not under contract yet"),
+ "C10":("proof","Proof.MarshalJSON / UnmarshalJSON, toHex, fromHex under contract: the document lists hex(be(raw[32i..32i+32))) in EVM order ar0,ar1,bs00,bs01,bs10,bs11,krs0,krs1 and the decoder hands ReadFrom exactly the 32-byte big-endian form of every coordinate (so decode(encode(p)) has p's raw bytes); failures are replayed on the real code with synthetic proofs. The defect found (left-aligned short coordinates) was repaired by a fix: commit.","§7 C10","assumed contracts: gnark Proof.WriteRawTo/ReadFrom raw layout and inverse, math/big Text/SetString/Bytes/FillBytes, encoding/json on the mirror struct (assumed/stdlib.ctr); spec axioms hex_roundtrip, json_proof_roundtrip"),
  "C06":("proof","ReducedModRCheck, ToReducedBigEndian, FromBinaryBigEndian proved for a symbolic field modulus and symbolic byte-aligned width: acceptance iff canonical representative, big-endian layout, recomposition value.","§7 C06",API),
 }
 reasons={}
